@@ -519,7 +519,9 @@ impl std::hash::Hash for CoarseKey {
     }
 }
 impl metrics_util::Hashable for CoarseKey {
-    type Hasher = std::collections::hash_map::DefaultHasher;
+    // the registry's shard maps always hash with metrics' KeyHasher (also when they grow), so a key type has to name
+    // that hasher for `hashable()` and the maps to agree; see DESIGN §7
+    type Hasher = metrics::KeyHasher;
 }
 struct CkStorage {
     next: AtomicU64,
